@@ -4,10 +4,16 @@
    Go code modelled (receive.go, case PACKET_STAT, metadataTransfer = true), per STAT s:
      if path == metadataPath { i++; continue }                   -- skip, id counted (fix F3)
      metadataBuffer.alloc(n+4) + LE length + MarshalToSizedBufferVT  -> one listing record
-     metaOnly := !r.metadataOnly(path, stat)                      -- selector [sel]
+                                                                  (of the stat AS ANNOUNCED)
+     metaOnly := !r.metadataOnly(path, stat)                      -- selector [sel]; it is handed the
+                                   live *types.Stat and may write into it: [rw], see [mrun_rw] below
+     p.Stat.Path = path                                           -- an edit of the path does not survive
      if !metaOnly && fileCanRequestData(mode) { r.files[path] = i }
      i++
-     orderValidator / hlValidator .HandleChange                   -- see [recv_accepts]
+     orderValidator.HandleChange                                  -- every handled STAT
+     if !metaOnly { hlValidator.HandleChange }                    -- only entries that are forwarded
+                                                                  (repair of the C03 finding; see
+                                                                  [first_reject_d], [recv_accepts])
      parent := filepath.Dir(path)
      for { last, ok := peek(); if !ok || parent == last.path {break}; pop() }
      if metaOnly { if isDir { push(cp) }; continue }              -- push only when NOT forwarded (fix F12)
@@ -118,10 +124,6 @@ End MetaRecv.
 Definition valid_stream (l : list stat) : Prop := run_validator (map vitem_of l) = None.
 Definition valid_stream_b (l : list stat) : bool :=
   match run_validator (map vitem_of l) with None => true | Some _ => false end.
-Definition recv_accepts (stats : list stat) : bool :=
-  valid_stream_b (recv_stream stats)
-  && match hardlink_check (recv_stream stats) with None => true | Some _ => false end.
-
 (* an announced entry depends on the skipped listing-name entry: it lies below it, or is a
    hard link to it.  The receiver never shows the skipped entry to its validators. *)
 Definition listing_dependents (stats : list stat) : bool :=
@@ -149,3 +151,108 @@ Definition alloc_write (b : list (bytes * N)) (rec : bytes) : list (bytes * N) :
 
 (* buffer.WriteTo: the chunks in allocation order *)
 Definition buf_bytes (b : list (bytes * N)) : bytes := concat (map fst (rev b)).
+
+(* ---------- selectors that write into the stat they are handed ----------
+   r.metadataOnly(path, p.Stat) gets the live *types.Stat (not a clone, unlike ReceiveOpt.Filter)
+   AFTER the record was framed into the metadata buffer.  Whatever it writes stays in p.Stat
+   for the rest of the iteration — fileCanRequestData(mode), both validators, isDir, the pending
+   stack, w.update — except the path, which "p.Stat.Path = path" restores.  So:
+     sel s   the decision, taken on the stat as announced
+     rw s    the stat as the selector leaves it
+     seen    what the rest of the loop (and the diff / disk writer) works with
+   and the listing records s itself.  [mrun] is the case rw = identity (pure predicates). *)
+Definition seen (rw : stat -> stat) (s : stat) : stat := set_path (rw s) (st_path s).
+
+Section MetaRecvRw.
+Variable sel : stat -> bool.
+Variable rw : stat -> stat.
+
+Fixpoint mrun_rw (i : nat) (stk : list stat) (l : list stat) : result :=
+  match l with
+  | [] => res_nil
+  | s :: r =>
+    if is_listing s then mrun_rw (S i) stk r
+    else
+      let s' := seen rw s in
+      let stk1 := mpop (dir (st_path s')) stk in
+      if sel s then
+        let rest := mrun_rw (S i) [] r in
+        {| r_listing := s :: r_listing rest;
+           r_files := (if mode_is_regular (st_mode s') then [(st_path s', i)] else []) ++ r_files rest;
+           r_forwarded := rev stk1 ++ s' :: r_forwarded rest |}
+      else
+        let rest := mrun_rw (S i) (if st_is_dir s' then s' :: stk1 else stk1) r in
+        {| r_listing := s :: r_listing rest;
+           r_files := r_files rest;
+           r_forwarded := r_forwarded rest |}
+  end.
+
+Definition meta_recv_rw (stats : list stat) : result := mrun_rw 0 [] stats.
+End MetaRecvRw.
+
+(* the side effects the harness gives its selectors (kind 1901, field rwk); [dec] = the decision
+     0 none            1 uid/gid/mtime normalised on every entry      2 chmod go-rwx on selected entries
+     3 normalised on selected entries only    4 normalised on rejected entries only
+     5 = 1 + 2         6 = 1 + the path field overwritten *)
+Definition norm_uid : N := 12.
+Definition norm_gid : N := 34.
+Definition norm_mtime : N := 981173106000000000.
+Definition rw_norm (s : stat) : stat :=
+  {| st_path := st_path s; st_mode := st_mode s; st_uid := norm_uid; st_gid := norm_gid; st_size := st_size s;
+     st_mtime := norm_mtime; st_linkname := st_linkname s; st_devmajor := st_devmajor s;
+     st_devminor := st_devminor s; st_xattrs := st_xattrs s |}.
+Definition rw_chmod (s : stat) : stat :=
+  {| st_path := st_path s; st_mode := N.ldiff (st_mode s) 63; st_uid := st_uid s; st_gid := st_gid s;
+     st_size := st_size s; st_mtime := st_mtime s; st_linkname := st_linkname s;
+     st_devmajor := st_devmajor s; st_devminor := st_devminor s; st_xattrs := st_xattrs s |}.
+Definition rw_of (k : N) (dec : bool) (s : stat) : stat :=
+  match k with
+  | 1 => rw_norm s
+  | 2 => if dec then rw_chmod s else s
+  | 3 => if dec then rw_norm s else s
+  | 4 => if dec then s else rw_norm s
+  | 5 => let t := rw_norm s in if dec then rw_chmod t else t
+  | 6 => set_path (rw_norm s) [120]
+  | _ => s
+  end.
+
+(* ---------- the receiver's validators, in the order of the loop ----------
+   Per handled STAT (decision d = selected, s = the stat as the selector left it): the order
+   validator always; the hard-link validator ONLY if the entry is forwarded (!metaOnly): an
+   entry that is only recorded in the listing never reaches the disk, so it cannot be the source
+   of a hard link that does (the pending parents replayed later are directories, which the
+   hard-link validator skips anyway).  Result: index (among the handled STATs) of the first
+   rejected entry — Receive returns the error there, BEFORE the replay / w.update of that
+   entry —, None = all accepted. *)
+Fixpoint first_reject_d (stk : list ventry) (sp : list bytes) (l : list (bool * stat)) (i : nat) : option nat :=
+  match l with
+  | [] => None
+  | (d, s) :: r =>
+    match vstep stk (vitem_of s) with
+    | None => Some i
+    | Some stk' =>
+      if d then match hl_step sp s with
+                | None => Some i
+                | Some sp' => first_reject_d stk' sp' r (S i)
+                end
+      else first_reject_d stk' sp r (S i)
+    end
+  end.
+Definition first_reject (sel : stat -> bool) (l : list stat) : option nat :=
+  first_reject_d vinit [] (map (fun s => (sel s, s)) l) 0.
+Definition first_reject_rw (sel : stat -> bool) (rw : stat -> stat) (l : list stat) : option nat :=
+  first_reject_d vinit [] (map (fun s => (sel s, seen rw s)) l) 0.
+
+(* "the real receiver accepts" *)
+Definition recv_accepts (sel : stat -> bool) (stats : list stat) : bool :=
+  match first_reject sel (recv_stream stats) with None => true | Some _ => false end.
+Definition recv_accepts_rw (sel : stat -> bool) (rw : stat -> stat) (stats : list stat) : bool :=
+  match first_reject_rw sel rw (recv_stream stats) with None => true | Some _ => false end.
+
+(* what has been handed to the diff / writer when the receive loop ends: everything needed, or —
+   on a rejection at index k — what the first k handled STATs caused *)
+Definition applied (sel : stat -> bool) (l : list stat) : list stat :=
+  match first_reject sel l with
+  | None => r_forwarded (mrun sel 0 [] l)
+  | Some k => r_forwarded (mrun sel 0 [] (firstn k l))
+  end.
